@@ -161,6 +161,15 @@ func runConsole(cfg *config) {
 			// U+FFFD is a character like any other (text from a wrongly converted source holds it)
 			rep := "INSERT INTO t VALUES ('caf\ufffd au lait');"
 			cases = append(cases, consoleCase{expect: []string{rep, "SELECT 2;"}, keys: []rune(rep + "\rSELECT 2;\r")})
+			// a line break typed inside a quoted literal belongs to the literal
+			nl := "INSERT INTO t VALUES ('first line\nsecond line');"
+			cases = append(cases, consoleCase{expect: []string{nl}, keys: []rune(strings.ReplaceAll(nl, "\n", "\r") + "\r")})
+			// SQL comments (the scanner skips // and /* */): a line comment ends at the line break, a
+			// semicolon inside a comment ends nothing
+			lc := "DELETE FROM t // the test rows\nWHERE a < 10;"
+			cases = append(cases, consoleCase{expect: []string{lc}, keys: []rune(strings.ReplaceAll(lc, "\n", "\r") + "\r")})
+			bc := "INSERT INTO t VALUES (1) /* ; INSERT INTO t VALUES (2); */;"
+			cases = append(cases, consoleCase{expect: []string{bc}, keys: []rune(bc + "\r")})
 			// a TAB typed (pasted) inside a literal belongs to the literal
 			tab := "INSERT INTO t VALUES ('a\tb');"
 			cases = append(cases, consoleCase{expect: []string{tab}, keys: []rune(tab + "\r")})
